@@ -11,8 +11,8 @@
    announcement -- chunked, fragmented) and writes [sent] body bytes; [framed tr decl sent] is
    the body that belongs to that request according to the layer below (Model/Limit.v);
    [sites] says which quantity each handler compares -- [pinned_sites] is what the pinned tree
-   does (re-read from the sources on every check), [repaired_sites] what it does with
-   hooks/c13-fix-*.patch applied.  [serve] adds the invocation log (IO plugins, function). *)
+   does (re-read from the sources on every check), [original_sites] what it did before the fix
+   commits 72ffd23 / e18593a (historical).  [serve] adds the invocation log (IO plugins, function). *)
 From Coq Require Import List ZArith Bool Lia Init.Byte.
 From HV Require Import Model.Frame Model.Limit Proofs.FrameProofs Proofs.LimitProofs.
 Import ListNotations.
@@ -37,66 +37,21 @@ Theorem C13_never_processed : forall sites tr max decl sent n,
 Proof. exact never_processed_covered. Qed.
 Print Assumptions C13_never_processed.
 
-(* the pinned tree: mock, tcp, unix, websocket *)
+(* THE PINNED TREE: all seven transports, every limit, every size, every declaration
+   (truthful, absent, smaller, larger) -- unconditionally *)
 Theorem C13_never_processed_pinned : forall tr max decl sent n,
-  In tr [Mock; Tcp; Unix; Websocket] -> framed tr decl sent = Some n -> n > max ->
+  framed tr decl sent = Some n -> n > max ->
   rejected (admission pinned_sites tr max decl sent) = true.
 Proof. exact never_processed_pinned. Qed.
 Print Assumptions C13_never_processed_pinned.
 
-(* the pinned tree: net/http, fasthttp, udp -- the statement is FALSE of the faithful model *)
-Theorem C13_never_processed_refuted_nethttp :
-  ~ (forall max decl sent n valid, framed NetHttp decl sent = Some n -> n > max ->
-       is_process (admission pinned_sites NetHttp max decl sent) = false /\
-       snd (serve pinned_sites NetHttp max decl sent valid) = []).
-Proof. exact nethttp_refuted. Qed.
-Print Assumptions C13_never_processed_refuted_nethttp.
-
-Theorem C13_never_processed_refuted_fasthttp :
-  ~ (forall max decl sent n valid, framed FastHttp decl sent = Some n -> n > max ->
-       is_process (admission pinned_sites FastHttp max decl sent) = false /\
-       snd (serve pinned_sites FastHttp max decl sent valid) = []).
-Proof. exact fasthttp_refuted. Qed.
-Print Assumptions C13_never_processed_refuted_fasthttp.
-
-Theorem C13_never_processed_refuted_udp :
-  ~ (forall max decl sent n valid, framed Udp decl sent = Some n -> n > max ->
-       is_process (admission pinned_sites Udp max decl sent) = false /\
-       snd (serve pinned_sites Udp max decl sent valid) = []).
-Proof. exact udp_refuted. Qed.
-Print Assumptions C13_never_processed_refuted_udp.
-
-(* the witnesses, run: limit 10; a 100-byte chunked POST; a datagram of 100 body bytes whose
-   header says 5.  IO plugins run, and for a well-formed call the function too. *)
-Theorem C13_refuted_witnesses :
-  serve pinned_sites NetHttp 10 None 100 true = (Process 100, [EvIOPlugin 100; EvInvoke]) /\
-  serve pinned_sites FastHttp 10 None 100 true = (Process 100, [EvIOPlugin 100; EvInvoke]) /\
-  serve pinned_sites Udp 10 (Some 5) 100 false = (Process 5, [EvIOPlugin 5]).
-Proof. exact pinned_witness_runs. Qed.
-Print Assumptions C13_refuted_witnesses.
-
-(* PARTIAL (pinned tree, all seven transports): under the guard -- an HTTP request announces a
-   Content-Length, a UDP header does not announce less than the datagram carries -- every
-   oversized request is refused. *)
-Theorem C13_never_processed_partial : forall tr max decl sent n,
-  pinned_guard tr decl sent = true -> framed tr decl sent = Some n -> n > max ->
-  rejected (admission pinned_sites tr max decl sent) = true.
-Proof. exact never_processed_partial. Qed.
-Print Assumptions C13_never_processed_partial.
-
-(* the guard is exact: for every request outside it some limit is breached *)
-Theorem C13_partial_guard_exact : forall tr decl sent n,
-  0 <= sent -> pinned_guard tr decl sent = false -> framed tr decl sent = Some n ->
-  exists max m, n > max /\ admission pinned_sites tr max decl sent = Process m.
-Proof. exact pinned_guard_exact. Qed.
-Print Assumptions C13_partial_guard_exact.
-
-(* with the proposed repairs the full statement holds on all seven transports *)
-Theorem C13_never_processed_repaired : forall tr max decl sent n,
-  framed tr decl sent = Some n -> n > max ->
-  rejected (admission repaired_sites tr max decl sent) = true.
-Proof. exact never_processed_repaired. Qed.
-Print Assumptions C13_never_processed_repaired.
+(* udp: the datagram that got through before fix 5ee4f50 (100 body bytes, header says 5, limit
+   10) is dropped as invalid; the one that tells the truth is refused *)
+Theorem C13_udp_former_witness :
+  serve pinned_sites Udp 10 (Some 5) 100 false = (Malformed, []) /\
+  serve pinned_sites Udp 10 (Some 100) 100 true = (RejectInBand, []).
+Proof. exact udp_former_witness. Qed.
+Print Assumptions C13_udp_former_witness.
 
 (* refused means: nothing runs *)
 Theorem C13_refused_runs_nothing : forall sites tr max decl sent valid,
@@ -168,13 +123,6 @@ Theorem C13_oversize_end_to_end : forall sites tr max decl sent n valid,
   client_decode (reply_of (admission sites tr max decl sent)) = OTooLarge.
 Proof. exact oversize_end_to_end. Qed.
 Print Assumptions C13_oversize_end_to_end.
-
-Theorem C13_oversize_end_to_end_partial : forall tr max decl sent n valid,
-  pinned_guard tr decl sent = true -> framed tr decl sent = Some n -> n > max ->
-  snd (serve pinned_sites tr max decl sent valid) = [] /\
-  client_decode (reply_of (admission pinned_sites tr max decl sent)) = OTooLarge.
-Proof. exact oversize_end_to_end_partial. Qed.
-Print Assumptions C13_oversize_end_to_end_partial.
 
 (* the bytes: the error frame / message / datagram the servers write (index with the top bit
    set + "Request entity too large") through the clients' receive code of Model/Frame.v *)
@@ -261,24 +209,27 @@ Theorem C13_websocket_any_message : forall max msg i b,
 Proof. exact ws_within_limit. Qed.
 Print Assumptions C13_websocket_any_message.
 
-(* udp, ANY datagram on ANY buffer: the body handed over has the ANNOUNCED length, which is
-   within the limit -- the datagram itself need not be: byte-level witness *)
-Theorem C13_udp_delivered_has_announced_length : forall max buf d i b,
-  snd (udp_step (Server max) buf d) = DDeliver i b -> Z.of_nat (length b) <= max \/ max < 0.
-Proof. exact udp_delivered_within_limit. Qed.
-Print Assumptions C13_udp_delivered_has_announced_length.
+(* udp, ANY datagram on ANY buffer it fits in: the body handed over is as long as the
+   datagram's payload and within the limit *)
+Theorem C13_udp_any_datagram : forall max buf d i b,
+  (length d <= length buf)%nat ->
+  udp_recv (Server max) buf d = DDeliver i b ->
+  Z.of_nat (length b) = Z.of_nat (length d) - 8 /\ Z.of_nat (length b) <= max.
+Proof. exact udp_delivered_is_payload_within_limit. Qed.
+Print Assumptions C13_udp_any_datagram.
 
-Theorem C13_udp_refuted_bytes :
-  udp_server_verdict 10 (repeat x00 200) udp_witness = Process 5 /\
+Theorem C13_udp_former_witness_bytes :
+  udp_recv (Server 10) (repeat x00 200) udp_witness = DBadHeader /\
+  udp_server_verdict 10 (repeat x00 200) udp_witness = Malformed /\
   Z.of_nat (length udp_witness) - 8 = 100.
-Proof. exact udp_byte_witness. Qed.
-Print Assumptions C13_udp_refuted_bytes.
+Proof. exact udp_byte_witness_now_refused. Qed.
+Print Assumptions C13_udp_former_witness_bytes.
 
 (* ------------------------------------------------------------ non-vacuity -------------- *)
 
 Example sites_of_the_pinned_tree :
-  map (fun tr => covers tr (pinned_sites tr)) all_transports = [true; false; false; true; true; true; false] /\
-  map (fun tr => covers tr (repaired_sites tr)) all_transports = [true; true; true; true; true; true; true].
+  map (fun tr => covers tr (pinned_sites tr)) all_transports = [true; true; true; true; true; true; true] /\
+  map (fun tr => covers tr (original_sites tr)) all_transports = [true; false; false; true; true; true; true].
 Proof. split; reflexivity. Qed.
 
 (* the sizes of the property's quantifier around one limit, truthful declarations, tcp *)
@@ -290,16 +241,27 @@ Proof. reflexivity. Qed.
 (* the four declarations, net/http, limit 10 *)
 Example declarations_nethttp :
   admission pinned_sites NetHttp 10 (Some 100) 100 = Reject413 /\     (* truthful *)
-  admission pinned_sites NetHttp 10 None 100 = Process 100 /\         (* absent: chunked -- the defect *)
+  admission pinned_sites NetHttp 10 None 100 = Reject413 /\           (* absent: chunked *)
   admission pinned_sites NetHttp 10 (Some 5) 100 = Process 5 /\       (* smaller: the request is its first 5 bytes *)
-  admission pinned_sites NetHttp 10 (Some 100) 7 = Reject413 /\       (* larger *)
-  admission repaired_sites NetHttp 10 None 100 = Reject413.
+  admission pinned_sites NetHttp 10 (Some 100) 7 = Reject413 /\       (* larger, above the limit *)
+  admission pinned_sites NetHttp 10 (Some 9) 7 = Reject400 /\         (* larger, within the limit: body ends early *)
+  admission pinned_sites NetHttp 10 None 10 = Process 10.             (* chunked, at the limit *)
 Proof. repeat split. Qed.
 
-(* the guards are satisfiable by ordinary requests, and by everything a truthful peer sends *)
-Example guard_satisfiable :
-  pinned_guard NetHttp (Some 100) 100 = true /\ framed NetHttp (Some 100) 100 = Some 100 /\ 100 > 10 /\
-  pinned_guard Udp (Some 100) 100 = true /\ framed Udp (Some 100) 100 = Some 100 /\
+(* HISTORICAL (before the fix commits 72ffd23 / e18593a, keys http-chunked-body-bypasses-limit,
+   fasthttp-chunked-body-bypasses-limit): a 100-byte chunked POST against a limit of 10 reached the
+   IO plugins and the function; the same request is refused now.  corpus/C13-*-chunked-over-limit.json *)
+Example historical_chunked_bypass_witness :
+  serve original_sites NetHttp 10 None 100 true = (Process 100, [EvIOPlugin 100; EvInvoke]) /\
+  serve original_sites FastHttp 10 None 100 true = (Process 100, [EvIOPlugin 100; EvInvoke]) /\
+  serve pinned_sites NetHttp 10 None 100 true = (Reject413, []) /\
+  serve pinned_sites FastHttp 10 None 100 true = (Reject413, []).
+Proof. exact historical_chunked_bypass. Qed.
+
+(* the hypotheses are satisfiable by ordinary requests *)
+Example hypotheses_satisfiable :
+  framed NetHttp (Some 100) 100 = Some 100 /\ framed NetHttp None 100 = Some 100 /\ 100 > 10 /\
+  framed Udp (Some 100) 100 = Some 100 /\
   truthful Websocket None 100 = true /\ truthful Udp (Some 7) 7 = true /\ 0 <= 7 <= 10.
 Proof. repeat split; try reflexivity; lia. Qed.
 
@@ -308,10 +270,6 @@ Example teardown_race_witness :
   caller_outcome false Unix (admission pinned_sites Unix 65536 (Some 655360) 655360) true FrameFirst = OTooLarge /\
   caller_outcome true Unix (admission pinned_sites Unix 65536 (Some 655360) 655360) true TeardownFirst = OTooLarge.
 Proof. repeat split. Qed.
-
-Example guard_violable :
-  pinned_guard NetHttp None 100 = false /\ pinned_guard Udp (Some 5) 100 = false /\ 0 <= 100.
-Proof. repeat split; try reflexivity; lia. Qed.
 
 (* bytes: a real header announcing 11 against a limit of 10, then anything *)
 Example oversize_header_bytes :
